@@ -14,6 +14,7 @@ import zlib
 from ..gen import tlvals as V
 from ..translate import tl_table as TT
 from ..translate import arith2
+from . import c14_hist
 
 SPEC = dict(
     manifest=dict(
@@ -606,6 +607,7 @@ def run(ctx):
     auto_shapes(ctx, W, B)
     for ser, c in sers:
         damaged(ctx, W, B, ser, c)
+    c14_hist.history_after_refusals(ctx, W)       # same object, same question, after bursts of refused calls
     check_blockid(ctx, W, B)
     # F16 shape: declared vector length far beyond the input must fail fast
     c = W.by_name['liteServer.signatureSet']
@@ -621,7 +623,9 @@ def replay(ctx, payload):
     W = world()
     B = Batch(ctx)
     inp = payload.get('input') or {}
-    if isinstance(inp, dict) and 'ctor_index' in inp:
+    if isinstance(inp, dict) and 'after_refused_calls_of_kind' in inp:
+        c14_hist.history_after_refusals(ctx, W)   # a history: re-run the probe (deterministic for the seed)
+    elif isinstance(inp, dict) and 'ctor_index' in inp:
         v = _unjson(inp['value'])
         shaped = inp.get('tag') in ('auto-shape', 'nested-in-bytes', 'string-with-registered-prefix')
         check_value(ctx, W, B, W.ctors[inp['ctor_index']], v, 'replay', expect_auto=MODEL if shaped else None)
